@@ -2,7 +2,7 @@
 from . import concdrive
 
 PID = "C05"
-PHASES = ["counter", "list", "setnx", "book", "misc"]
+PHASES = ["counter", "list", "setnx", "book", "misc", "expiry"]
 
 
 def run(ctx):
